@@ -72,6 +72,13 @@ var whitelist = []FuncSpec{
 	{"pkg/provider/xml", "", "GetCertsFromKeyDescriptors"},
 	{"pkg/provider/xml", "", "InflateAndDecode"},
 	{"pkg/provider", "", "getResponseCert"},
+	{"pkg/provider", "", "getIssuer"},
+	{"pkg/provider", "", "makeResponse"},
+	{"pkg/provider", "", "makeAssertion"},
+	{"pkg/provider", "", "makeLogoutResponse"},
+	{"pkg/provider", "", "NewEndpoint"},
+	{"pkg/provider", "", "NewEndpointWithURL"},
+	{"pkg/provider", "", "endpointConfigToEndpoints"},
 }
 
 // extraFields are struct fields the hand-written handler models read although no translated function does.
@@ -109,6 +116,7 @@ type oracle struct {
 	name string
 	typ  string // lean type
 	doc  string
+	dflt string // optional default value of the Ora field (keeps hand-written Ora literals valid when an oracle is added)
 }
 
 type fn struct {
@@ -450,6 +458,8 @@ type tctx struct {
 	ignored map[types.Object]bool
 	retTy   string
 	nret    int
+	// newIDSites counts the NewID() call sites translated so far in this function
+	newIDSites int
 }
 
 type frameField struct {
@@ -818,6 +828,99 @@ func (c *tctx) skippableCall(e ast.Expr) bool {
 	return false
 }
 
+
+// pathUpdate translates an assignment through an access path rooted at a local variable into a functional update:
+// it returns the frame field of the root, the new value of that field, and the panic guards (nil pointer on the
+// path, index out of range).
+func (c *tctx) pathUpdate(lhs ast.Expr, rhs ast.Expr) (string, string, []string) {
+	// collect the path from the root outwards
+	type step struct {
+		kind  string // "field" | "index" | "deref"
+		name  string
+		ptr   bool // the base of this step is a pointer (Option)
+		index string
+	}
+	var steps []step
+	e := lhs
+	for {
+		switch x := e.(type) {
+		case *ast.ParenExpr:
+			e = x.X
+			continue
+		case *ast.SelectorExpr:
+			sel := c.info.Selections[x]
+			if sel == nil || sel.Kind() != types.FieldVal {
+				panic("unsupported assignment target " + c.src(lhs))
+			}
+			bt := c.info.TypeOf(x.X)
+			ns := namedStruct(bt)
+			if ns == nil {
+				panic("unsupported assignment target " + c.src(lhs))
+			}
+			c.w.useField(ns, x.Sel.Name)
+			steps = append([]step{{kind: "field", name: x.Sel.Name, ptr: isPointer(bt)}}, steps...)
+			e = x.X
+			continue
+		case *ast.IndexExpr:
+			lit, ok := x.Index.(*ast.BasicLit)
+			if !ok {
+				panic("unsupported assignment target (non-constant index) " + c.src(lhs))
+			}
+			if _, ok := c.info.TypeOf(x.X).Underlying().(*types.Slice); !ok {
+				panic("unsupported assignment target (index of non-slice) " + c.src(lhs))
+			}
+			steps = append([]step{{kind: "index", index: lit.Value}}, steps...)
+			e = x.X
+			continue
+		case *ast.StarExpr:
+			steps = append([]step{{kind: "deref", ptr: true}}, steps...)
+			e = x.X
+			continue
+		}
+		break
+	}
+	id, ok := e.(*ast.Ident)
+	if !ok {
+		panic("unsupported assignment target " + c.src(lhs))
+	}
+	obj := c.info.Uses[id]
+	root, ok := c.locals[obj]
+	if !ok {
+		panic("assignment through non-local " + id.Name)
+	}
+	v := c.exprAs(rhs, c.info.TypeOf(lhs))
+	g := append([]string{}, v.g...)
+	// build the update inside out; cur is the Lean expression of the current base value
+	var build func(cur string, i int) string
+	build = func(cur string, i int) string {
+		if i == len(steps) {
+			return v.e
+		}
+		st := steps[i]
+		switch st.kind {
+		case "field":
+			if st.ptr {
+				g = append(g, cur+".isNone")
+				inner := build(fmt.Sprintf("(deref %s).%s", cur, st.name), i+1)
+				return fmt.Sprintf("(some { (deref %s) with %s := %s })", cur, st.name, inner)
+			}
+			inner := build(fmt.Sprintf("%s.%s", cur, st.name), i+1)
+			return fmt.Sprintf("({ %s with %s := %s })", cur, st.name, inner)
+		case "index":
+			g = append(g, fmt.Sprintf("decide (%s.length ≤ %s)", cur, st.index))
+			inner := build(fmt.Sprintf("(%s.getD %s default)", cur, st.index), i+1)
+			return fmt.Sprintf("(%s.set %s %s)", cur, st.index, inner)
+		case "deref":
+			g = append(g, cur+".isNone")
+			inner := build(fmt.Sprintf("(deref %s)", cur), i+1)
+			return fmt.Sprintf("(some %s)", inner)
+		}
+		panic("unreachable")
+	}
+	upd := build("s."+root, 0)
+	return root, upd, g
+}
+
 func (c *tctx) assign(s *ast.AssignStmt, rest []ast.Stmt, ind string) string {
 	tok := s.Tok.String()
 	lhsName := func(e ast.Expr, ty types.Type) string {
@@ -856,6 +959,13 @@ func (c *tctx) assign(s *ast.AssignStmt, rest []ast.Stmt, ind string) string {
 	}
 	if tok != ":=" && tok != "=" {
 		panic("unsupported assignment operator " + tok)
+	}
+	if tok == "=" && len(s.Lhs) == 1 && len(s.Rhs) == 1 {
+		if _, isIdent := s.Lhs[0].(*ast.Ident); !isIdent {
+			// x.f = e, x.f.g[0].h = e: functional update of the local x along the access path
+			root, upd, g := c.pathUpdate(s.Lhs[0], s.Rhs[0])
+			return guardWrap(g, ind, fmt.Sprintf("%slet s := { s with %s := %s };\n%s", ind, root, upd, c.stmts(rest, ind)))
+		}
 	}
 	if len(s.Lhs) == len(s.Rhs) {
 		var g []string
@@ -1303,7 +1413,7 @@ func (c *tctx) args(call *ast.CallExpr) ([]string, []string) {
 
 func (c *tctx) oracle(name, typ, doc string) string {
 	if _, ok := c.w.oracles[name]; !ok {
-		c.w.oracles[name] = &oracle{name, typ, doc}
+		c.w.oracles[name] = &oracle{name: name, typ: typ, doc: doc}
 		c.w.oraOrd = append(c.w.oraOrd, name)
 	}
 	c.f.usesOra = true
@@ -1379,6 +1489,14 @@ func (c *tctx) call(x *ast.CallExpr) val {
 				panic("closure-returning function used as value: " + fun.Name)
 			}
 			return c.callTranslated(callee, x)
+		}
+		if f, ok := obj.(*types.Func); ok && f.Name() == "NewID" && f.Pkg() != nil && strings.HasSuffix(f.Pkg().Path(), "pkg/provider") && len(x.Args) == 0 {
+			// NewID(): the identifier source is an oracle, indexed by the calling function and the call site within it
+			o := c.oracle("newID", "String → Nat → String", "provider.NewID(): identifier drawn at the k-th call site of the named function")
+			c.w.oracles["newID"].dflt = "fun f k => \"_\" ++ f ++ \"-\" ++ toString k"
+			k := c.newIDSites
+			c.newIDSites++
+			return val{e: fmt.Sprintf("(%s %s %d)", o, leanStr(c.f.lean), k)}
 		}
 		panic("unsupported call " + c.src(x))
 	case *ast.SelectorExpr:
@@ -1742,7 +1860,11 @@ func (w *world) emitLean() string {
 	}
 	for _, n := range w.oraOrd {
 		o := w.oracles[n]
-		fmt.Fprintf(&sb, "  /-- %s -/\n  %s : %s\n", o.doc, o.name, o.typ)
+		if o.dflt != "" {
+			fmt.Fprintf(&sb, "  /-- %s -/\n  %s : %s := %s\n", o.doc, o.name, o.typ, o.dflt)
+		} else {
+			fmt.Fprintf(&sb, "  /-- %s -/\n  %s : %s\n", o.doc, o.name, o.typ)
+		}
 	}
 	sb.WriteString("\n")
 	var untranslated []string
